@@ -55,4 +55,16 @@ mod verif_builder {
         kani::cover!(!cid, "without container id");
         std::mem::forget(c);
     }
+    //@H name=c04_builder_repeat props=C04,C20 bound="3 configured tags, the first configured twice" fn=StatsdClientBuilder::with_tag,with_tag_value,build :: a default tag configured twice is carried twice: "all default tags, in the order they were configured" (nothing is merged, deduplicated or reordered)
+    #[kani::proof]
+    #[kani::unwind(8)]
+    fn c04_builder_repeat() {
+        let b = StatsdClientBuilder { prefix: String::from("p."), sink: Box::new(Scripted), errors: Box::new(|e: MetricError| std::mem::forget(e)), tags: Vec::new(), container_id: None };
+        let c = b.with_tag("k0", "v0").with_tag("k0", "v0").with_tag_value("v1").build();
+        assert!(c.tags.len() == 3, "[C04] every configured default tag is kept, also one configured more than once");
+        assert!(matches!(c.tags[0], (Some(ref k), ref v) if eq(k, "k0") && eq(v, "v0")) && matches!(c.tags[1], (Some(ref k), ref v) if eq(k, "k0") && eq(v, "v0")), "[C04] a repeated default tag stays repeated, in place");
+        assert!(matches!(c.tags[2], (None, ref v) if eq(v, "v1")), "[C04] the tags after it keep their configuration order");
+        kani::cover!(true, "end");
+        std::mem::forget(c);
+    }
 }
